@@ -117,3 +117,9 @@ CLAIMED['C19'] = ('6/C19', 'Bounded-exhaustive symbolic check (finite time domai
                   'instance, repeated reads and inspection do not call the generator, a failing generator fails again at the same time, '
                   'contexts restore the time exactly, push/pop restores cached value and time stamp.',
                   'symbolic execution (CrossHair+z3) of Dynamic/Time/numbergen with symbolic operation sequences against a (generator,time) table')
+CLAIMED['C20'] = ('6/C20', 'Bounded-exhaustive check over finite pools chosen by symbolic indices (everything is realised by eval): three constructor '
+                  'signature variants x parameter values (ints, finite and non-finite floats, strings over quote/backslash/newline alphabets, '
+                  'empty and one-element containers, sub-dicts of a non-empty default, nested Parameterized changed/unchanged/named, explicit '
+                  'names resembling auto-generated ones); the text of pprint() and of script_repr() is evaluated and the rebuilt object '
+                  'compared parameter by parameter; the auto-name filter language is compared in z3 with the language of the name generator.',
+                  'solver-enumerated pools through symbolic execution (CrossHair+z3) of pprint/script_repr with eval round trip; regex language comparison in z3')
